@@ -93,7 +93,7 @@ func (pp *precParser) expr(min int) string {
 			next = bi.level
 		}
 		rhs := pp.expr(next)
-		lhs = fmt.Sprintf("(%s o%d %s)", lhs, t, rhs)
+		lhs = "(" + lhs + pp.p.ot.BinarySep(t) + rhs + ")"
 		if bi.assoc == wl.AssocNon {
 			if b2, is := pp.p.binary[pp.peek()]; is && b2.level == bi.level {
 				panic(precErr{pp.pos})
